@@ -61,11 +61,18 @@ type Conn struct {
 	L *Log
 	// FailWriteRun: Write returns an error (nothing delivered) from the n-th TTLV message on (0 = never)
 	FailWriteRun int
-	closed       chan struct{}
-	once         sync.Once
-	ID           int
-	msgs         int
-	pending      int
+	// FailWriteErr: the error a refused write returns (default ErrInjected); FailWritePartial: that many bytes of the refused
+	// write are delivered before the error is returned; FailWriteOnce: only the first refused write fails, later ones go through
+	// (a transient fault, the kind a retry would survive)
+	FailWriteErr     error
+	FailWritePartial int
+	FailWriteOnce    bool
+	failedOnce       bool
+	closed           chan struct{}
+	once             sync.Once
+	ID               int
+	msgs             int
+	pending          int
 	// OnClose runs synchronously inside the first Close call
 	OnClose func()
 }
@@ -88,7 +95,7 @@ func (c *Conn) Write(p []byte) (int, error) {
 			c.pending = 8 + int(p[4])<<24 | int(p[5])<<16 | int(p[6])<<8 | int(p[7])
 			c.pending = 8 + (int(p[4])<<24 | int(p[5])<<16 | int(p[6])<<8 | int(p[7]))
 		}
-		fail := c.msgs >= c.FailWriteRun
+		fail := c.msgs >= c.FailWriteRun && !(c.FailWriteOnce && c.failedOnce)
 		if !fail {
 			c.pending -= len(p)
 			if c.pending < 0 {
@@ -98,7 +105,21 @@ func (c *Conn) Write(p []byte) (int, error) {
 		c.L.mu.Unlock()
 		if fail {
 			c.L.Add("writeFail")
-			return 0, ErrInjected
+			c.L.mu.Lock()
+			c.failedOnce = true
+			c.L.mu.Unlock()
+			err := c.FailWriteErr
+			if err == nil {
+				err = ErrInjected
+			}
+			n := 0
+			if k := c.FailWritePartial; k > 0 {
+				if k > len(p) {
+					k = len(p)
+				}
+				n, _ = c.Conn.Write(p[:k])
+			}
+			return n, err
 		}
 	}
 	c.L.io("write", p)
